@@ -26,9 +26,11 @@ RULE = (
     "Each run draws a data set (n x d; exactly-summable regime = multiples of 2^-8 bounded by 2^8, or generic "
     "Gaussian regime) and 3-4 histories that deliver the same rows to fresh Standardize instances: random "
     "partition and permutation; every part as single vectors, (m,d) with axis=-1, (d,m) with axis=0, or a 3-/4-D "
-    "tensor with the coefficient axis at a random (possibly negative) index; float32 or float64; rejected calls "
+    "tensor with the coefficient axis at a random (possibly negative) index; float32 or float64; in a seeded memory "
+    "layout (C / Fortran order, negative stride, every other element of a wider buffer, transposed view); rejected calls "
     "(wrong feature dimension, empty array) interleaved. Then apply() on vectors and tensors (norm_var, in_place, "
-    "axis varied) and a no-statistics tensor. Non-trivial = >= 2 histories that differ in partition or form and "
+    "axis, memory layout, leading axes varied) and a no-statistics tensor. In 15 % of the runs another instance has "
+    "first accumulated the same number of OTHER vectors and been applied (state shared between instances). Non-trivial = >= 2 histories that differ in partition or form and "
     ">= 1 apply query. Distinct = distinct signatures (regime, n class, d, per history the collapsed sequence of "
     "part forms with rejected-call marks, query forms)."
 )
